@@ -284,5 +284,6 @@ STD_ENUMS = {
     'Cow': ['Borrowed', 'Owned'],
     'Entry': ['Occupied', 'Vacant'],
     'Bound': ['Included', 'Excluded', 'Unbounded'],
+    'Value': ['Null', 'Bool', 'Number', 'String', 'Array', 'Object'],      # serde_json::Value
 }
 STD_ENUM_DISCR = {'Ordering': {'Less': -1, 'Equal': 0, 'Greater': 1}}
